@@ -187,11 +187,23 @@ pub fn run_c15(tier: &str) -> Report {
         plane_evals += plane.len() as u64;
         rep.sink.extend(vs);
     }
+    // forward second-difference sweeps (see run_forward_sweep)
+    let hs = if tier == "quick" { 1e-7 } else { 2e-8 };
+    let mut fsteps = 0u64;
+    let mut fworst = 0.0f64;
+    let sws = sweeps(tier);
+    for sw in sws.iter().filter(|s| !s.arc) {
+        let (n, wv, v) = run_forward_sweep(sw, hs, None);
+        fsteps += n;
+        fworst = fworst.max(wv);
+        rep.sink.extend(v);
+    }
+    rep.set("forward_sweeps", json!({"curves": sws.iter().filter(|s| !s.arc).count(), "step_rad": hs, "steps": fsteps, "worst_second_difference": fworst, "tolerance": SWEEP_TOL}));
     let hard = pts.iter().filter(|(_, t)| *t != "uniform").count() as u64 + plane.iter().filter(|(_, t)| *t != "interior").count() as u64 * 12;
     let w = worst.lock().unwrap();
-    rep.set("evaluations", json!(2 * pts.len() as u64 + plane_evals));
+    rep.set("evaluations", json!(2 * pts.len() as u64 + plane_evals + fsteps));
     rep.set("distinct_nontrivial", json!(hard));
-    rep.set("rule", json!("sphere lattice (Fibonacci + 62 frame vertices with offsets 1e-15..1e-3 + 30 face edges + 120 sector seams + polar caps + pole rings) projected relative to the nearest and second-nearest face of an independent regular-dodecahedron frame; planar polar lattice (10 sectors x 9 angles x 18 radii) on each of the 12 faces; distinct_nontrivial = points aligned with a case split of the code (frame vertex/edge/seam, pole ring, near-centre, seam rays)"));
+    rep.set("rule", json!("sphere lattice (Fibonacci + 62 frame vertices with offsets 1e-15..1e-3 + 30 face edges + 120 sector seams + polar caps + pole rings) projected relative to the nearest and second-nearest face of an independent regular-dodecahedron frame; planar polar lattice (10 sectors x 9 angles x 18 radii) on each of the 12 faces; plus forward second-difference sweeps (great-circle arcs inside single triangles in equal steps, consecutive projected step lengths equal within 1e-12, key forward_sweeps); distinct_nontrivial = points aligned with a case split of the code (frame vertex/edge/seam, pole ring, near-centre, seam rays)"));
     rep.set("exhaustive", json!(true));
     rep.set("exhaustive_scope", json!("every point of the stated finite lattices; the sphere is a continuum and is NOT covered between lattice points"));
     rep.set("worst_roundtrip_nearest_rad", json!(w[0]));
@@ -357,6 +369,89 @@ pub fn run_sweep(sw: &Sweep, h: f64, window: Option<(f64, f64)>) -> (u64, f64, V
                     prev_d = Some(d);
                 }
                 prev = Some(v);
+            }
+            (worst, None)
+        })
+        .collect();
+    let mut worst = 0.0f64;
+    let mut out = Vec::new();
+    for (w, v) in res {
+        worst = worst.max(w);
+        if out.is_empty() {
+            out.extend(v);
+        }
+    }
+    (i1 - i0, worst, out)
+}
+
+
+/// forward counterpart of `run_sweep` (C15): the great-circle arc between the images of the two ends of a
+/// planar curve of the catalogue (both inside one triangle of the face) is walked in equal angular steps
+/// and projected; consecutive planar chord lengths must agree within SWEEP_TOL. A jump of the forward map,
+/// e.g. where a series or a branch of an inverse trigonometric function takes over, shows as its size.
+pub fn run_forward_sweep(sw: &Sweep, h: f64, window: Option<(f64, f64)>) -> (u64, f64, Vec<Viol>) {
+    let (a, b) = match (subj::inverse(sw.point(0.0), sw.face as u8), subj::inverse(sw.point(1.0), sw.face as u8)) {
+        (Ok(a), Ok(b)) => (a, b),
+        _ => return (0, 0.0, vec![]),
+    };
+    let omega = rg::ang(a, b);
+    if !(omega > 1e-6) {
+        return (0, 0.0, vec![]);
+    }
+    // orthonormal pair in the plane of the arc
+    let e1 = a;
+    let e2 = rg::unit(rg::sub(b, rg::scale(a, rg::dot(a, b))));
+    let n = (omega / h).ceil().max(4.0) as u64;
+    let (t0, t1) = window.unwrap_or((0.0, 1.0));
+    let i0 = (t0 * n as f64).floor() as u64;
+    let i1 = ((t1 * n as f64).ceil() as u64).min(n);
+    let chunk = 1u64 << 16;
+    let chunks: Vec<u64> = (i0..i1).step_by(chunk as usize).collect();
+    let res: Vec<(f64, Option<Viol>)> = chunks
+        .par_iter()
+        .map(|&c0| {
+            let c1 = (c0 + chunk).min(i1);
+            let mut worst = 0.0f64;
+            let start = c0.saturating_sub(2).max(i0);
+            let mut prev: Option<P2> = None;
+            let mut prev_d: Option<f64> = None;
+            for i in start..=c1 {
+                let t = i as f64 / n as f64;
+                let w = t * omega;
+                let v = rg::unit(rg::add(rg::scale(e1, w.cos()), rg::scale(e2, w.sin())));
+                let q = match subj::forward(v, sw.face as u8) {
+                    Ok(q) => q,
+                    Err(e) => {
+                        let mut case = sw.json();
+                        case["kind"] = json!("forward_sweep");
+                        case["t"] = json!(t);
+                        case["h"] = json!(h);
+                        return (worst, Some(viol("C15/forward-error", e, case)));
+                    }
+                };
+                if let Some(p) = prev {
+                    let d = ((q[0] - p[0]).powi(2) + (q[1] - p[1]).powi(2)).sqrt();
+                    if let Some(pd) = prev_d {
+                        let dd = (d - pd).abs();
+                        worst = worst.max(dd);
+                        if !(dd <= SWEEP_TOL) {
+                            let mut case = sw.json();
+                            case["kind"] = json!("forward_sweep");
+                            case["t"] = json!(t);
+                            case["h"] = json!(h);
+                            return (
+                                worst,
+                                Some(viol(
+                                    "C15/forward-discontinuity",
+                                    format!("walking a great-circle arc inside one triangle of face {} in steps of {:.1e} rad, the projected step length changes from {:.6e} to {:.6e} at planar point ({}, {}): the forward projection jumps by {:.3e}, so points on either side cannot both be returned within 1e-12 by one continuous inverse", sw.face, h, pd, d, q[0], q[1], dd),
+                                    case,
+                                )),
+                            );
+                        }
+                    }
+                    prev_d = Some(d);
+                }
+                prev = Some(q);
             }
             (worst, None)
         })
@@ -650,6 +745,17 @@ pub fn run_c16(tier: &str) -> Report {
 }
 
 pub fn replay_c15(case: &Value) -> Vec<Viol> {
+    if case["kind"] == "forward_sweep" {
+        let f = |k: &str| {
+            let a = case[k].as_array().unwrap();
+            [a[0].as_f64().unwrap(), a[1].as_f64().unwrap()]
+        };
+        let sw = Sweep { face: case["face"].as_u64().unwrap() as usize, from: f("from"), to: f("to"), arc: false };
+        let t = case["t"].as_f64().unwrap_or(0.5);
+        let h = case["h"].as_f64().unwrap_or(1e-7);
+        let w = 4000.0 * h / 0.5;
+        return run_forward_sweep(&sw, h, Some(((t - w).max(0.0), (t + w).min(1.0)))).2;
+    }
     let worst = Mutex::new([0.0f64; 3]);
     match case["kind"].as_str().unwrap_or("") {
         "sphere_point" => {
